@@ -102,6 +102,8 @@ def run(chk: Check) -> None:
     codec_state(chk, "R07.5", ("auxdata", "serialization"))
     no_result_caches(chk, "R07.5")
     value_passthrough(chk, "R07.5")
+    from .purity import stream_discipline
+    stream_discipline(chk, "R07.5")
     from .purity import decoded_passthrough
     decoded_passthrough(chk, "R07.5")
     encode_stream(chk, "R07.5")
